@@ -1,13 +1,13 @@
 """C05 — train/test splitting partitions the data: nothing lost, nothing leaked, options honoured."""
 from __future__ import annotations
-import random
+import json, random
 import numpy as np
 from ..core import CheckSpec, Outcome, Lean
 
 def gen(rng: random.Random, tier: str):
     n = {"quick": 250, "thorough": 8000}[tier]
     for _ in range(n):
-        kind = rng.choice(["array_split", "last_n", "crossfold_records", "sample_records", "crossfold_users", "sample_users", "temporal"])
+        kind = rng.choice(["array_split", "last_n", "crossfold_records", "sample_records", "crossfold_users", "sample_users", "temporal", "temporal_tz", "temporal_tz"])
         nu, ni = rng.randint(2, 7), rng.randint(2, 7)
         rows = [[100 + u, 1000 + i, float(rng.randint(1, 5)), rng.randint(0, 200)] for u in range(nu) for i in range(ni) if rng.random() < 0.55]
         if len(rows) < 3: continue
@@ -18,8 +18,75 @@ def gen(rng: random.Random, tier: str):
         elif kind == "sample_records": c.update(size=rng.randint(1, max(1, len(rows) // 2)), repeats=rng.choice([None, 2, 3, 6]), disjoint=rng.random() < 0.6)
         elif kind == "crossfold_users": c.update(k=rng.randint(2, 4), holdout=rng.choice([["sample_n", 1], ["sample_n", 2], ["sample_frac", 0.5], ["last_n", 1], ["last_n", 0], ["last_frac", 0.4], ["last_frac", 0.01]]))
         elif kind == "sample_users": c.update(size=rng.randint(1, nu), repeats=rng.choice([None, 2, 4]), disjoint=rng.random() < 0.6, holdout=rng.choice([["sample_n", 1], ["last_n", 2], ["last_frac", 0.5]]))
+        elif kind == "temporal_tz":
+            # instants are BASE + k half-hours; cut-offs are placed on record times half of the time (boundary), with a form each
+            ks = sorted({r[3] for r in rows}); pick = lambda: (rng.choice(ks) if rng.random() < 0.5 else rng.randint(0, 210))
+            cuts = sorted({pick() for _ in range(rng.choice([1, 1, 2, 3]))})
+            form = lambda: rng.choice(["unix-int", "unix-int", "unix-float", "naive-dt", "iso"])
+            c.update(tz=rng.choice(TZS), tcol=rng.choice(["int", "datetime"]), cuts=[[k, form()] for k in cuts],
+                     end=rng.choice([None, None, [cuts[-1] + rng.randint(1, 60), form()]]))
         else: c.update(cut=rng.randint(0, 200), end=rng.choice([None, rng.randint(0, 260)]), frac=rng.choice([None, 0.2, 0.5]))
         yield c
+
+BASE = 1_600_000_000; STEP = 1800
+TZS = [["UTC0", 0], ["CST6", -21600], ["IST-5:30", 19800], ["LINT-14", 50400], ["<-03>3", -10800]]      # POSIX TZ strings (no tzdata needed), seconds east of UTC
+TZ_KEY = "temporal split: UNIX-second cut-off against a date-time column depends on the process time zone / `end` is not converted"
+
+def _run_temporal_tz(case, lean):
+    """split_global_time under a process time zone, with every cut-off form, against both timestamp representations"""
+    import os, time, datetime as dt, pandas as pd
+    from lenskit.data import from_interactions_df
+    from lenskit import splitting as sp
+    rows = case["rows"]; tzname, tzoff = case["tz"]; col = "naive" if case["tcol"] == "datetime" else "unix"
+    inst = lambda k: BASE + k * STEP
+    df = pd.DataFrame([[r[0], r[1], r[2], inst(r[3])] for r in rows], columns=["user_id", "item_id", "rating", "timestamp"])
+    if col == "naive": df["timestamp"] = pd.to_datetime(df["timestamp"], unit="s")
+    def arg(k, form):
+        x = inst(k)
+        if form == "unix-int": return x
+        if form == "unix-float": return float(x)
+        d = dt.datetime(1970, 1, 1) + dt.timedelta(seconds=x)          # the naive (UTC) wall-clock reading of the instant
+        return d if form == "naive-dt" else d.isoformat()
+    fr = lambda form: "unix" if form.startswith("unix") else "naive"
+    cuts = [arg(k, f) for k, f in case["cuts"]]; end = None if case["end"] is None else arg(*case["end"])
+    old_tz = os.environ.get("TZ")
+    os.environ["TZ"] = tzname; time.tzset()
+    try:
+        ds = from_interactions_df(df)
+        try:
+            r = sp.split_global_time(ds, cuts[0] if len(cuts) == 1 else cuts, end)
+            splits = [r] if len(cuts) == 1 else list(r)
+            key = {(int(u), int(i)): n for n, (u, i) in enumerate(zip(df["user_id"], df["item_id"]))}
+            real = []
+            for s_ in splits:
+                tr = s_.train.interactions().pandas(ids=True)
+                real.append({"train": sorted(key[(int(u), int(i))] for u, i in zip(tr["user_id"], tr["item_id"])),
+                             "test": sorted(key[(int(k_.user_id), int(i))] for k_, il in s_.test.items() for i in il.ids())})
+        except Exception as e:
+            real = {"error": type(e).__name__}
+    finally:
+        if old_tz is None: os.environ.pop("TZ", None)
+        else: os.environ["TZ"] = old_tz
+        time.tzset()
+    margs = {"times": [inst(r[3]) for r in rows], "col": col, "cuts": [[fr(f), inst(k)] for k, f in case["cuts"]],
+             "end": None if case["end"] is None else [fr(case["end"][1]), inst(case["end"][0])]}
+    canon = lambda m: None if m is None else [{"train": sorted(x["train"]), "test": sorted(x["test"])} for x in m]
+    as_is = canon(lean.call("c05.global_time", {**margs, "tz": tzoff, "variant": "asIs"}))
+    rep = canon(lean.call("c05.global_time", {**margs, "tz": tzoff, "variant": "repaired"}))
+    forms = [fr(f) for _, f in case["cuts"]] + ([] if case["end"] is None else [fr(case["end"][1])])
+    in_scope = all(f == "unix" or f == col for f in forms)       # the property quantifies over UNIX seconds and the stored representation
+    want = canon(lean.call("c05.global_time", {**margs, "tz": 0, "variant": "repaired"})) if in_scope else rep
+    realc = None if isinstance(real, dict) and real.get("error") == "TypeError" else real
+    corr = realc in (as_is, rep); spec = (realc == want) if in_scope else True      # outside the claim only the correspondence is checked
+    classes = ["temporal_tz", f"column:{case['tcol']}"] + sorted({"cut-off as " + f for _, f in case["cuts"]})
+    if tzoff != 0: classes.append("process zone ≠ UTC")
+    if case["end"] is not None: classes.append("end given")
+    if len(cuts) > 1: classes.append("cut sequence")
+    if not in_scope: classes.append("naive cut-off against UNIX column (outside the claim)")
+    fk = None
+    if not spec:
+        fk = TZ_KEY if (realc == as_is and col == "naive" and "unix" in forms) else ("?temporal: " + json.dumps(real)[:80])
+    return Outcome(corr, spec, tuple(classes), {"impl": real, "model_as_is": as_is, "model_repaired": rep, "spec": want, "in_scope": in_scope}, fk)
 
 def _holdout(h):
     from lenskit.splitting import SampleN, SampleFrac, LastN, LastFrac
@@ -46,6 +113,7 @@ def run(case: dict, lean: Lean) -> Outcome:
         if n >= len(times): classes.append("n ≥ length")
         return Outcome(corr, spec, tuple(classes), {"impl": real, "as_is": as_is, "repaired": rep},
                        "LastN / LastFrac with a count of zero hold out every row" if (not spec and real == as_is and n == 0) else None)
+    if kind == "temporal_tz": return _run_temporal_tz(case, lean)
     df = pd.DataFrame(case["rows"], columns=["user_id", "item_id", "rating", "timestamp"]); ds = from_interactions_df(df)
     allp = _trip(df); to = case["test_only"] and kind != "temporal"      # the temporal splitters have no test_only option
     n_users = df["user_id"].nunique()
@@ -147,6 +215,6 @@ SPEC = CheckSpec(
     theorems=[f"LK.Split.C05_Split_{n}" for n in ["arraySplit_flatten", "arraySplit_length", "arraySplit_each_once", "makePair_partition", "makePair_testOnly",
               "userSplit_other_users", "userSplit_test", "userSplit_no_leak", "temporal_partition", "temporal_train_before", "temporal_test_window",
               "conformCut_tz_independent"]] + ["LK.Split.C05_Split2_lastN_spec"],
-    correspondence_ops=["c05.array_split", "c05.last_n"],
-    nontrivial_rule="distinct cases reaching ≥1 of: each splitter, each holdout, zero-sized holdout, oversized request fallback, single sample, test_only, temporal fraction",
+    correspondence_ops=["c05.array_split", "c05.last_n", "c05.global_time"],
+    nontrivial_rule="distinct cases reaching ≥1 of: each splitter, each holdout, zero-sized holdout, oversized request fallback, single sample, test_only, temporal fraction, temporal split under a process zone ≠ UTC, each cut-off form × column representation, cut sequence, end",
     budgets={"quick": 250, "thorough": 8000}, gen=gen, run=run, shrink=shrink)
